@@ -397,13 +397,14 @@ class Check:
             self.known_seen[k["id"]] += 1
             return False
         rid = len(self.violations) + 1
-        d = os.path.join(ROOT, "replay", "%s-%d" % (self.pid, rid))
-        os.makedirs(d, exist_ok=True)
-        with open(os.path.join(d, "violation.json"), "w") as f:
-            json.dump(descr, f, indent=1, default=str)
-        for src in (replay_files or []):
-            if os.path.exists(src):
-                shutil.copy(src, d)
+        d = os.path.join(ROOT, "replay", "%s-%d" % (self.pid, min(rid, 40)))
+        if rid <= 40:       # replay material for the first 40 violations; the rest are counted
+            os.makedirs(d, exist_ok=True)
+            with open(os.path.join(d, "violation.json"), "w") as f:
+                json.dump(descr, f, indent=1, default=str)
+            for src in (replay_files or []):
+                if os.path.exists(src):
+                    shutil.copy(src, d)
         self.violations.append((descr, d))
         return True
 
@@ -412,6 +413,11 @@ class Check:
             if k["id"] in self.known_seen:
                 print("KNOWN-FINDING: property=%s %s (%s; reproduced %d times)" % (self.pid, k["id"], k["what"], self.known_seen[k["id"]]))
         self.cov["known_findings_seen"] = sorted(self.known_seen)
+        if self.violations:
+            from collections import Counter
+            cnt = Counter(str(d.get("reason", d.get("invariant", "?")))[:90] for d, _ in self.violations)
+            for why, n in cnt.most_common(12):
+                print("  %6d x %s" % (n, why))
         for descr, d in self.violations[:20]:
             print("VIOLATION property=%s replay=%s" % (self.pid, d))
             print("  ", json.dumps(descr, default=str)[:600])
